@@ -173,13 +173,14 @@ def _subtree(args):
     hkey, params, prefix, max_paths, opts = args
     harness = _resolve(hkey)
     eng = core.Engine()
+    eng.recheck_every = opts.get("recheck_every", 64)
     if opts.get("deadline"):
         eng.deadline = opts["deadline"]
     work = [prefix]
     res = {
         "paths": 0, "pruned": 0, "validated": 0, "labels": collections.Counter(),
         "samples": [], "violations": [], "fault": None, "inconclusive": None,
-        "leftover": [], "mismatch": None,
+        "leftover": [], "mismatch": None, "infeasible": 0,
     }
     validate = opts.get("validate", 1)
     n = 0
@@ -223,12 +224,18 @@ def _subtree(args):
             }
         core.ENG = None
         try:
+            fm = None
+            if status in ("ok", "violation") or eng.pending_violations:
+                fm = eng.final_model()
+                if fm is None:
+                    # the path condition is unsatisfiable: this "path" never existed (spurious feasibility verdict)
+                    status = "infeasible"
+                    eng.pending_violations = []
+                    res["pruned"] += 1
+                    res["infeasible"] = res.get("infeasible", 0) + 1
             if status == "violation":
-                try:
-                    vio["assignment"] = eng.assignment()
-                    eng.pending_violations.append(vio)
-                except (PathEnd, Inconclusive) as e:
-                    res["inconclusive"] = "no model for violating path: %s" % e
+                vio["assignment"] = eng.assignment(fm)
+                eng.pending_violations.append(vio)
             for pv in eng.pending_violations:
                 c = run_concrete(harness, params, pv["assignment"])
                 pv["reproduced"] = c["status"] == "violation"
@@ -241,8 +248,8 @@ def _subtree(args):
                 for l in ctx.labels:
                     res["labels"][l] += 1
                 if validate and (res["paths"] % validate == 0):
-                    asg = eng.assignment()
-                    sobs = eng.evaluate(ctx.obs)
+                    asg = eng.assignment(fm)
+                    sobs = eng.evaluate(ctx.obs, fm)
                     c = run_concrete(harness, params, asg)
                     res["validated"] += 1
                     if c["status"] != "ok" or c["obs"] != sobs or c["labels"] != list(ctx.labels):
@@ -265,6 +272,7 @@ def _subtree(args):
     res["decisions"] = eng.decisions
     res["queries"] = eng.queries
     res["solver_s"] = eng.solver_s
+    res["rechecked"] = eng.rechecked
     return res
 
 
@@ -297,12 +305,15 @@ class Result:
         self.wall_s = 0.0
         self.exhaustive = False
         self.unreached = []
+        self.infeasible = 0
+        self.rechecked = 0
 
     def summary(self):
         return {
             "harness": self.name, "bounds": self.params, "paths": self.paths, "pruned_paths": self.pruned,
             "decisions": self.decisions, "queries": self.queries, "solver_s": round(self.solver_s, 3),
             "validated": self.validated, "labels": dict(self.labels), "exhaustive": self.exhaustive,
+            "infeasible_paths_dropped": self.infeasible, "unsat_verdicts_rechecked_by_fresh_solver": self.rechecked,
             "wall_s": round(self.wall_s, 2),
         }
 
@@ -340,6 +351,8 @@ def explore(hkey, params=None, *, nproc=None, max_paths=2_000_000, wall_s=1500, 
                     res.decisions += r["decisions"]
                     res.queries += r["queries"]
                     res.solver_s += r["solver_s"]
+                    res.infeasible += r.get("infeasible", 0)
+                    res.rechecked += r.get("rechecked", 0)
                     res.labels.update(r["labels"])
                     for s in r["samples"]:
                         if len(res.samples) < 6:
